@@ -185,7 +185,18 @@ class Scenario(object):
                                      wrapper=getattr(self.b, "daemon_wrapper", ()))
         if not self.daemon.started():
             raise RuntimeError("daemon did not start: " + self.daemon.stderr_text()[-400:])
-        for _ in range(self.rng.randint(3, 5)):
+        n = self.rng.randint(3, 5)
+        if self.rng.random() < 0.25:
+            # make unique names that are prefixes of one another (":1.1" / ":1.1x"): two early clients stay, then
+            # a run of short-lived connections burns the single-digit names
+            self.add_client()
+            self.add_client()
+            for _ in range(self.rng.randint(8, 14)):
+                t = client.connect(self.daemon.sock, self.clock)
+                t.close()
+            self.part.count("scenarios-with-prefix-related-unique-names")
+            n = max(1, n - 2)
+        for _ in range(n):
             self.add_client()
         # some senders own well-known names
         for w in WELL:
@@ -461,6 +472,9 @@ class Scenario(object):
                                 pairs[i] = (k, rng.choice([x for x in STRS if x != v]))
                     self.op_remove(c, render(rng, pairs), False)
             elif r < 0.41 and len(self.clients) > 2:
+                if rng.random() < 0.5:
+                    # the leaver holds a rule itself (the bus only scans the rule pools for connections that do)
+                    self.op_add(c, b"type='signal',member='Leaver'", "valid")
                 self.op_disconnect(c)
                 if rng.random() < 0.6:
                     self.add_client()
